@@ -13,9 +13,11 @@
    it, exactly one EvSetDeferred and no transfer; and nothing of the kind for any other MID.
    Any number of messages and blocks, any policies.  (B2F/DeliverP.v, on the joint invariant of
    B2F/PairP.v.)  In the terms first used here: C01_delivered_once.  The iteration pair_iter
-   returns such a session whenever it stops (C01_iteration); that it stops within the stated
-   number of rounds when started from the empty input is not proved (an instance with 6 + 2
-   messages is computed).  Each hypothesis is shown necessary by a closed counterexample in
+   returns such a session whenever it stops (C01_iteration), and started from the EMPTY input
+   it reaches the complete session within 2*(|outbox a| + |outbox b|) + 2 rounds
+   (C01_iteration_converges, B2F/IterP.v: the session is a dialogue of chunks, each round adds
+   two; the bound is attained for empty outboxes) -- so the statement as first written holds
+   once the missing hypotheses are added (C01_exchange_from_empty).  Each hypothesis is shown necessary by a closed counterexample in
    DeliverP.v; the statement as it was first written here (roles and handlers only) is
    refuted (C01_first_statement_refuted).
 
@@ -28,7 +30,7 @@
    the statement evaluated on the handlers' logs, and each real side compared with the model
    side fed with its peer's actual bytes. *)
 From Coq Require Import Sorting.Permutation Sorting.Sorted.
-From Verif Require Import Base.Bytes B2F.Secure B2F.Side B2F.SideP B2F.CodecP B2F.PairIter B2F.PairDefs B2F.PairP B2F.DeliverP gen.Tables.
+From Verif Require Import Base.Bytes B2F.Secure B2F.Side B2F.SideP B2F.CodecP B2F.PairIter B2F.PairDefs B2F.PairP B2F.DeliverP B2F.IterP gen.Tables.
 Open Scope N_scope.
 
 (* THE EXCHANGE *)
@@ -61,6 +63,32 @@ Theorem C01_iteration : forall n a b in_a in_b, closed a b in_a in_b ->
   pair_iter n a b in_a = (exchange a in_a, exchange b in_b).
 Proof. exact pair_iter_closed. Qed.
 Print Assumptions C01_iteration.
+
+(* started from the empty input the iteration reaches THE complete session, within the bound *)
+Theorem C01_iteration_converges : forall (a b : side_cfg),
+  c_master a = negb (c_master b) ->
+  hs_compat (if c_master a then a else b) (if c_master a then b else a) ->
+  side_ready a b -> side_ready b a ->
+  exists in_a in_b, closed a b in_a in_b /\
+    iter_in (iter_bound a b) a b [] = in_a /\
+    forall n, (iter_bound a b <= n)%nat -> pair_iter n a b [] = (exchange a in_a, exchange b in_b).
+Proof. exact pair_iter_converges. Qed.
+Print Assumptions C01_iteration_converges.
+
+(* the conclusion of the statement first written, for the executable pair run from the empty
+   input, under the hypotheses of C01_exchange *)
+Theorem C01_exchange_from_empty : forall (a b : side_cfg) (n : nat),
+  c_master a = negb (c_master b) ->
+  hs_compat (if c_master a then a else b) (if c_master a then b else a) ->
+  side_ready a b -> side_ready b a ->
+  (n >= 4 * (length (h_outbox (c_handler a)) + length (h_outbox (c_handler b))) + 8)%nat ->
+  let '(oa, ob) := pair_iter n a b [] in
+  x_res oa = XNil /\ x_res ob = XNil /\
+  forall p, In p (h_outbox (c_handler a)) -> policy_of (c_handler b) (o_mid p) = AAccept ->
+            delivered_once ob (o_mid p) /\ sent_once oa (o_mid p).
+Proof. exact C01_exchange_holds. Qed.
+Print Assumptions C01_exchange_from_empty.
+Example C01_iteration_bound_attained := iter_bound_attained.
 
 (* the statement as first written (roles and handlers only) is false *)
 Theorem C01_first_statement_refuted : ~ C01_exchange_statement.
